@@ -121,6 +121,8 @@ def build_callable(program: dict, pool: Pool, keep: list) -> Any:
                 r = lib.fn_scale(inp, **kw)
             elif t == "fn_gain":
                 r = lib.fn_gain(inp, **kw)
+            elif t == "fn_pick":
+                r = lib.fn_pick(inp, inp * 0.5 + 1.0, **kw)
             elif t == "fn_shift":
                 bsel = s.get("b", "dyn")
                 bval = inp[0] * 0.5 if bsel == "dyn" else jnp.asarray(lib.SHIFT_CONSTS[bsel].astype(np.dtype(inp.dtype)))
@@ -151,7 +153,7 @@ def build_callable(program: dict, pool: Pool, keep: list) -> Any:
 
 
 _SPEC_DEFAULTS = {"Block": {"act": "gelu"}, "UBlock": {"flip": False}, "EqxBlock": {"slope": 0.1}, "RecScale": {"depth": 1, "via_wrap": True}, "UView": {"mid": 0.0}}
-_KW_DEFAULTS = {"fn_scale": {"factor": 2.0}, "KwBlock": {"scale": 1.0}, "fn_gain": {"gain": 1}}
+_KW_DEFAULTS = {"fn_scale": {"factor": 2.0}, "KwBlock": {"scale": 1.0}, "fn_gain": {"gain": 1}, "fn_pick": {"use_a": False}}
 
 
 def _norm_spec(spec: dict) -> str:
@@ -166,7 +168,7 @@ def site_value_key(s: dict, pool: Pool) -> tuple:
     if s["target"] == "op_named":
         obj: Any = "Relu" if s.get("which", "fn") == "fn" else _norm_spec(pool.desc[s["inst"]])
         return ("op_named", obj, "", bool(s.get("halve")), bool(s.get("sandwich", True)))
-    if s["target"] in ("fn_sin2", "fn_scale", "fn_gate", "fn_gain", "fn_shift"):
+    if s["target"] in ("fn_sin2", "fn_scale", "fn_gate", "fn_gain", "fn_shift", "fn_pick"):
         obj = s["target"]
     elif "temp" in s:
         obj = _norm_spec(s["temp"])
@@ -575,7 +577,10 @@ def gen_history(seed: int, run: int, n_ops: int) -> list[dict]:
                         s = {"target": "fn_shift", "b": r.choice(["c1", "c2", "dyn"])}
                         if sites and r.random() < 0.6:
                             sites.append(dict(s, b=r.choice(["c1", "c2", "dyn"])))
-                    elif w_ < 0.58:
+                    elif w_ < 0.52:
+                        # two tensor operands, one of them unread under a static flag
+                        s = {"target": "fn_pick", "kw": {"use_a": r.random() < 0.4} if r.random() < 0.8 else {}}
+                    elif w_ < 0.62:
                         # keyword values that are equal (and hash-equal) but of different type
                         s = {"target": "fn_gain", "kw": {"gain": r.choice([1, 1.0, True, 2, 2.0])} if r.random() < 0.8 else {}}
                     elif w_ < 0.75:
